@@ -108,15 +108,30 @@ static void task_g711 (int sub)
 			prev = d ;
 		}
 	}
-	// ---- enc (dec (c)) == c for all codes (mu-law: the two zero codes are one level)
-	{	MemFile w ; SNDFILE *f = open_raw_write (w, sub, 0) ; short lv [256] ; for (int k = 0 ; k < 256 ; k++) lv [k] = (short) ref (k) ;
-		sf_write_short (f, lv, 256) ; sf_close (f) ;
+	// ---- enc (dec (c)) == c for all codes, through each of the four entry types (mu-law: the two zero codes are one level, and the
+	//      level 0 - whose sign is positive - must come out as the positive zero code 0xFF)
+	for (int t = 0 ; t < 4 ; t++)
+	{	MemFile w ; SNDFILE *f = open_raw_write (w, sub, 0) ; if (!f) { report (c, failr ("g711_open_write", "")) ; return ; }
+		std::vector<uint8_t> lv (256 * 8) ;
+		for (int k = 0 ; k < 256 ; k++)
+		{	int v = ref (k) ;
+			if (t == T_SHORT) ((short *) lv.data ()) [k] = (short) v ; else if (t == T_INT) ((int *) lv.data ()) [k] = v * 65536 ;
+			else if (t == T_FLOAT) ((float *) lv.data ()) [k] = (float) v / 32768.0f ; else ((double *) lv.data ()) [k] = (double) v / 32768.0 ;
+		}
+		sf_count_t wr = sf_write_t (f, t, lv.data (), 256) ; sf_close (f) ;
+		if (wr != 256 || w.data.size () != 256) { report (c, failr ("g711_write_failed", stype_name [t])) ; return ; }
 		for (int k = 0 ; k < 256 ; k++)
 		{	ctx.ev.evaluations ++ ; ctx.ev.extra ["distinct_counted"] ++ ;
-			if (w.data [k] != k && ref (w.data [k]) != ref (k))
-			{	report (c, failr ("g711_enc_dec_not_identity", std::string (nm) + " code " + std::to_string (k) + " -> " + std::to_string (w.data [k]))) ; return ; }
-			if (w.data [k] != k && !(sub == SF_FORMAT_ULAW && ref (k) == 0))
-			{	report (c, failr ("g711_enc_dec_not_identity", std::string (nm) + " code " + std::to_string (k) + " re-encodes as " + std::to_string (w.data [k]))) ; return ; }
+			// float / double inputs are scaled by 0x7FFF/0x8000 inside the library: the level may come out one step lower in magnitude, never a different sign
+			if (t >= T_FLOAT) { if (ref (w.data [k]) != 0 && ref (k) != 0 && (ref (w.data [k]) < 0) != (ref (k) < 0)) { report (c, failr ("g711_enc_dec_not_identity", std::string (nm) + " " + stype_name [t] + " code " + std::to_string (k) + " re-encodes with the other sign as " + std::to_string (w.data [k]))) ; return ; } }
+			else
+			{	if (w.data [k] != k && ref (w.data [k]) != ref (k))
+				{	report (c, failr ("g711_enc_dec_not_identity", std::string (nm) + " " + stype_name [t] + " code " + std::to_string (k) + " -> " + std::to_string (w.data [k]))) ; return ; }
+				if (w.data [k] != k && !(sub == SF_FORMAT_ULAW && ref (k) == 0))
+				{	report (c, failr ("g711_enc_dec_not_identity", std::string (nm) + " " + stype_name [t] + " code " + std::to_string (k) + " re-encodes as " + std::to_string (w.data [k]))) ; return ; }
+			}
+			if (sub == SF_FORMAT_ULAW && ref (k) == 0 && w.data [k] != 0xff)
+			{	report (c, failr ("g711_zero_not_positive_zero", std::string (nm) + " " + stype_name [t] + ": the level 0 (from code " + std::to_string (k) + ") is encoded as " + std::to_string (w.data [k]) + ", G.711 positive zero is 255")) ; return ; }
 		}
 	}
 	ctx.ev.classes [std::string ("g711:") + nm] ++ ;
